@@ -8,6 +8,7 @@ every implementation output.
 """
 import copy
 import math
+import warnings
 
 import numpy as np
 
@@ -417,6 +418,35 @@ def run(chk):
             oracle_post(chk, case, outs[irow], rec)
             if outs[irow][0] == "Err":
                 break
+    # ---- complete constructions with the REAL natal kicks: kicks count toward the ejected share, so the BH mass remaining is
+    #      ret_dyn times the BH mass formed (formed: the same model with full retention and no kicks) --------------------------
+    emf, *_ = U.mods()
+    for r_ in range(3 if chk.tier == "quick" else 16):
+        kwf = dict(m_breaks=[0.1, 0.5, 1.0, 100], a_slopes=[-0.5, -1.3, -2.5], nbins=[3, 3, int(rng.choice([8, 12]))], FeH=float(rng.choice([-1.0, -2.0, 0.0])),
+                   tout=[float(rng.choice([50.0, 3000.0, 12000.0]))], esc_rate=0.0, N0=5e5)
+        km = ["sigmoid", "maxwellian", "sigmoid"][r_ % 3]
+        kk = dict(natal_kicks=True, kick_method=km, BH_ret_dyn=float(rng.choice([0.3, 0.4])))
+        kk.update(dict(vesc=float(rng.choice([90.0, 200.0]))) if km == "maxwellian" else dict(kick_slope=float(rng.choice([0.5, 1.0])), kick_scale=float(rng.choice([8.0, 12.0]))))
+        case_f = dict(kwf, **kk)
+        try:
+            with warnings.catch_warnings():
+                warnings.simplefilter("ignore")
+                formed = emf.EvolvedMF.from_powerlaw(BH_ret_dyn=1.0, **kwf)
+                kicked_m = emf.EvolvedMF.from_powerlaw(**kwf, **kk)
+        except ValueError as e:
+            if "Natal kicks already removed" in str(e):
+                chk.count("complete construction: kicks exceed the budget (by design)")
+                continue
+            chk.fail("row: a feasible retention must not raise", case_f, dict(error=str(e)[:100]))
+            continue
+        except TypeError:
+            chk.notes.append("kick keyword names differ; complete-construction kick check skipped")
+            break
+        chk.count("complete constructions with real natal kicks")
+        chk.note_distinct(case_f)
+        tot_f, tot_k = float(formed.Mr.BH[-1].sum()), float(kicked_m.Mr.BH[-1].sum())
+        if tot_f > 0 and abs(tot_k - kk["BH_ret_dyn"] * tot_f) > 2e-3 * tot_f:
+            chk.fail("row: BH mass remaining equals ret_dyn times BH mass formed", case_f, dict(formed=tot_f, remaining=tot_k, ratio=tot_k / tot_f))
     exprs = []
     for c, rec in zip(pcases, precs):
         kicked = "None"
